@@ -99,8 +99,15 @@ class StoreRun:
                     cov["drift_samples"].append(dict(cfg=self.name, drift=r["drift"], steps=req["steps"]))
             if not r["ok"]:
                 on_violation(self, req, r)
-            elif len(cov["samples"]) < 4 and len(req["steps"]) >= 4 and not r.get("diverged"):
-                cov["samples"].append(dict(cfg=self.name, steps=req["steps"], promised=req["allowed"], observed=r.get("observed")))
+            elif not r.get("diverged"):
+                smp = dict(cfg=self.name, steps=req["steps"], out=req["out"], promised=req["allowed"], observed=r.get("observed"), taint=req.get("taint"))
+                if len(cov["samples"]) < 4:
+                    cov["samples"].append(smp)
+                else:
+                    # keep the longest paths seen
+                    j = min(range(len(cov["samples"])), key=lambda x: len(cov["samples"][x]["steps"]))
+                    if len(cov["samples"][j]["steps"]) < len(smp["steps"]):
+                        cov["samples"][j] = smp
 
         pool.run_all(todo, on_result, chunk=16)
         cov["states"] += res.distinct
